@@ -36,7 +36,7 @@ def setup_world(I, pool, users=('trader',), extra_pm=None):
     return b
 
 
-def _replay_s1(n_extra, recv_kind):
+def _replay_s1(n_extra, recv_kind, belief=False):
     def build(m):
         fees = (m['protocol_fee'], m['swap_fee'], m['burn_fee'], [m['extra_fee%d' % i] for i in range(n_extra)])
         pool = pool_json('p1', ['uA', 'uB'], [6, 6], [m['reserve_x'], m['reserve_y']], 'constant_product', fees)
@@ -47,7 +47,7 @@ def _replay_s1(n_extra, recv_kind):
             {'op': 'mint', 'to': 'sink', 'funds': [coin_j('uA', m['supply_A'] - m['pm_balance_A']), coin_j('uB', m['supply_B'] - m['pm_balance_B'])]},
             {'op': 'mint', 'to': 'trader', 'funds': [coin_j('uA', m['offer'])]},
             {'op': 'execute', 'contract': 'pool_manager', 'sender': 'trader', 'funds': [coin_j('uA', m['offer'])],
-             'msg': {'swap': {'ask_asset_denom': 'uB', 'belief_price': None, 'max_slippage': dec_j(m['max_slippage_atomics']),
+             'msg': {'swap': {'ask_asset_denom': 'uB', 'belief_price': dec_j(m['belief_price_atomics']) if belief else None, 'max_slippage': dec_j(m['max_slippage_atomics']),
                               'receiver': recv, 'pool_identifier': 'p1'}}},
         ]
         steps = [s for s in steps if s['op'] != 'mint' or any(int(c['amount']) > 0 for c in s['funds'])]
@@ -128,3 +128,141 @@ for _n, _rk in ((0, 'none'), (1, 'valid'), (0, 'invalid'), (2, 'none')):
                          'swap/extra fees stay; no other balance changes; only bank messages',
                bounds='reserves/offer [1,2^128), fees via real is_valid (%d extra), receiver %s; pool-manager balances >= reserves' % (_n, _rk),
                covers=['ok'], replay=_replay_s1(_n, _rk))(_ob_s1(_n, _rk))
+
+
+# ---------------------------------------------------------------- routed swaps: hop chaining (pricing kernel abstracted)
+
+from .c12 import swap_op, route_msg
+
+ROUTES = {
+    'AB_BC': [('uA', 'uB', 'p1'), ('uB', 'uC', 'p2')],
+    'AB_BA': [('uA', 'uB', 'p1'), ('uB', 'uA', 'p1')],
+    'AB_BA_AB': [('uA', 'uB', 'p1'), ('uB', 'uA', 'p1'), ('uA', 'uB', 'p1')],
+    'AB_BC_CB_BA': [('uA', 'uB', 'p1'), ('uB', 'uC', 'p2'), ('uC', 'uB', 'p2'), ('uB', 'uA', 'p1')],
+}
+ROUTE_PRESETS4 = [dict(x=10 ** 9, y=2 * 10 ** 9, z=3 * 10 ** 9, w=10 ** 9, offer=10 ** 6, fees=(10 ** 15, 2 * 10 ** 15, 10 ** 15)),
+                  dict(x=10 ** 12, y=10 ** 12, z=10 ** 12, w=10 ** 12, offer=10 ** 9, fees=(0, 0, 0)),
+                  dict(x=777777, y=123456789, z=987654321, w=55555, offer=4321, fees=(10 ** 16, 3 * 10 ** 16, 0))]
+
+
+def _replay_route_vs_manual(shape):
+    """native differential run: the routed swap against the same hops sent one by one as plain Swap messages (each offering exactly what the
+    previous one delivered), from the same state; any difference in the final reserves or in the trader's balances confirms the violation"""
+    def rb(label, m):
+        from .c02 import _mints
+        from ..replayer import run_scenario
+        hops = ROUTES[shape]
+        jops = [{'mantra_swap': {'token_in_denom': a, 'token_out_denom': bb, 'pool_identifier': pid}} for a, bb, pid in hops]
+        cands = []
+        if all(k in m for k in ('reserve_x', 'reserve_y', 'reserve_z', 'reserve_w', 'offer')):
+            cands.append(dict(x=m['reserve_x'], y=m['reserve_y'], z=m['reserve_z'], w=m['reserve_w'], offer=m['offer'],
+                              fees=(m.get('protocol_fee', 0), m.get('swap_fee', 0), m.get('burn_fee', 0))))
+        for ps in cands + ROUTE_PRESETS4:
+            fees = (ps['fees'][0], ps['fees'][1], ps['fees'][2], [])
+            base = [{'op': 'set_pool', 'pool': pool_json('p1', ['uA', 'uB'], [6, 6], [ps['x'], ps['y']], 'constant_product', fees)},
+                    {'op': 'set_pool', 'pool': pool_json('p2', ['uB', 'uC'], [6, 6], [ps['z'], ps['w']], 'constant_product', fees)}]
+            base += _mints([('pool_manager', [('uA', ps['x']), ('uB', ps['y'] + ps['z']), ('uC', ps['w'])]), ('trader', [('uA', ps['offer'])])])
+            tail = [{'op': 'balance', 'addr': 'trader', 'denom': d} for d in ('uA', 'uB', 'uC')]
+            tail += [{'op': 'query', 'contract': 'pool_manager', 'msg': {'pools': {'pool_identifier': pid}}} for pid in ('p1', 'p2')]
+            routed = {'setup': {}, 'steps': base + [{'op': 'execute', 'contract': 'pool_manager', 'sender': 'trader', 'funds': [coin_j('uA', ps['offer'])],
+                                                     'msg': {'execute_swap_operations': {'operations': jops, 'max_slippage': '0.5'}}}] + tail}
+            out = run_scenario(routed)
+            res = out.get('results')
+            if not res or 'ok' not in res[len(base)]:
+                continue
+            # the manual sequence: each hop offers the trader's whole balance of the hop's input denom (she starts with the offer only)
+            steps = list(base)
+            amt = ps['offer']
+            okm = True
+            for a, bb, pid in hops:
+                sc1 = {'setup': {}, 'steps': steps + [{'op': 'execute', 'contract': 'pool_manager', 'sender': 'trader', 'funds': [coin_j(a, amt)],
+                                                       'msg': {'swap': {'ask_asset_denom': bb, 'belief_price': None, 'max_slippage': '0.5', 'receiver': None,
+                                                                        'pool_identifier': pid}}},
+                                                      {'op': 'balance', 'addr': 'trader', 'denom': bb}]}
+                o1 = run_scenario(sc1).get('results')
+                if not o1 or 'ok' not in o1[-2]:
+                    okm = False
+                    break
+                steps = sc1['steps'][:-1]
+                amt = int(o1[-1]['ok'])
+            if not okm:
+                continue
+            manual = run_scenario({'setup': {}, 'steps': steps + tail}).get('results')
+            n = len(tail)
+            a_r, a_m = json.dumps(res[-n:], sort_keys=True), json.dumps(manual[-n:], sort_keys=True)
+            if a_r != a_m:
+                why = ('route %s from pools %d/%d and %d/%d with offer %d ends in a different state than its hops sent one by one: trader balances / reserves '
+                       'routed %s vs manual %s' % (shape, ps['x'], ps['y'], ps['z'], ps['w'], ps['offer'], a_r[:300], a_m[:300]))
+                return routed, (lambda o, w=why: (True, w))
+        return None
+    return rb
+
+
+def _ob_route(shape):
+    hops = ROUTES[shape]
+
+    def s(I):
+        I.set_hint(dict(HINT, reserve_z=10 ** 12, reserve_w=10 ** 12))
+        x = I.sym('reserve_x', lo=1, hi=U128)
+        y = I.sym('reserve_y', lo=1, hi=U128)
+        z = I.sym('reserve_z', lo=1, hi=U128)
+        w = I.sym('reserve_w', lo=1, hi=U128)
+        fees1, _ = sym_fees(I, 0)
+        fees2, _ = sym_fees(I, 0, prefix='p2_')
+        pm_config(I)
+        put_pool(I, pool_info('p1', ['uA', 'uB'], [6, 6], [x, y], xyk(), fees1))
+        put_pool(I, pool_info('p2', ['uB', 'uC'], [6, 6], [z, w], xyk(), fees2))
+        b = bank_of(I)
+        X = {d: I.sym('excess_' + d[1:], hi=U128) for d in ('uA', 'uB', 'uC')}
+        b.set(PM, 'uA', simp(x + X['uA']))
+        b.set(PM, 'uB', simp(y + z + X['uB']))
+        b.set(PM, 'uC', simp(w + X['uC']))
+        for d in ('uA', 'uB', 'uC'):
+            b.supply[d] = simp(b.get(PM, d) * 2 + (1 << 130))
+        o = I.sym('offer', lo=1, hi=U128)
+        b.set('trader', 'uA', o)
+        I.assume(I.addr_valid('alice'))
+        ops = [swap_op(a, bb, pid) for a, bb, pid in hops]
+        ch = Chain(I, CONTRACTS)
+        pre = b.snapshot()
+        st, resp = ch.execute('trader', PM, route_msg(ops, max_slippage=Some(5 * 10 ** 17), receiver=Some('alice')), [coin_v('uA', o)])
+        if st != 'ok':
+            I.outcome('route_rejected')
+            return
+        I.cover('ok')
+        calls = I.world.meta.get('uf_calls', [])
+        I.check('one_pricing_call_per_hop', len(calls) == len(hops))
+        if len(calls) != len(hops):
+            return
+        prev = o
+        for k, ((din, amt_in, ask, vals), (a, bb, pid)) in enumerate(zip(calls, hops)):
+            I.check('hop_consumes_exactly_the_previous_output', smt.And(din == a, smt.Eq(amt_in, prev)))
+            prev = vals[0]
+        final = hops[-1][1]
+        for d in ('uA', 'uB', 'uC'):
+            got = simp(b.get('alice', d) - pre.get('alice', d))
+            I.check('only_the_final_output_reaches_the_receiver', smt.Eq(got, prev if d == final else 0))
+            sent = simp(pre.get('trader', d) - b.get('trader', d))
+            I.check('sender_pays_the_offer_only', smt.Eq(sent, o if d == 'uA' else 0))
+            # reserves stay backed: what the contract holds beyond the summed reserves is unchanged
+            rs = 0
+            for pid in ('p1', 'p2'):
+                for c in get_pool(I, pid).get('assets').e:
+                    if c.get('denom') == d:
+                        rs = simp(rs + c.get('amount'))
+            I.check('reserves_stay_backed_exactly', smt.Eq(b.get(PM, d) - rs, X[d]))
+            pf = simp(sum(v[3] for (di, ai, ak, v), h in zip(calls, hops) if h[1] == d))
+            bf = simp(sum(v[4] for (di, ai, ak, v), h in zip(calls, hops) if h[1] == d))
+            I.check('fee_collector_gets_each_hops_protocol_fee', smt.Eq(b.get('fee_collector', d) - pre.get('fee_collector', d), pf))
+            I.check('each_hops_burn_fee_leaves_supply', smt.Eq(pre.supply[d] - b.supply[d], bf))
+    return s
+
+
+for _shape in ROUTES:
+    obligation('C04', 'R1.route_hops_%s' % _shape, entries=['execute', 'execute_swap_operations', 'perform_swap', 'assert_operations'], kind='S',
+               tier='thorough' if len(ROUTES[_shape]) > 3 else 'quick',
+               statement='routed swap %s (incl. routes that return to the offer denom): every hop offers exactly what the previous hop returned (the first: the funds sent); '
+                         'only the final output reaches the receiver; the sender pays the offer only; per denom the fee collector receives the protocol fees and the '
+                         'supply drops by the burn fees of the hops that pay out that denom; the contract balance beyond the summed reserves is unchanged' % _shape,
+               bounds='pools uA/uB and uB/uC, reserves/offer/excess [0,2^128), real is_valid fees; pricing kernel abstracted (results arbitrary u128)', covers=['ok'],
+               abstractions=[ABSTRACT_PRICING_NOTE], opts={'abstract': ABSTRACT_PRICING}, replay=_replay_route_vs_manual(_shape))(_ob_route(_shape))
